@@ -48,7 +48,12 @@ RULE = ('every spec of: [opt] rectangular nx,ny in 1..3 x 3 spacing patterns x 4
         'angle or a metres/layer_column file re-used through read() x 3 block orders x units x 2 conventions x 3 '
         'atmosphere types; [derived] also rename_column of each single column, subsets, all in reverse and in list '
         'order (one by one and as lists), name swaps, rename_layer, delete+add of a column; g7 with the surface of each single column, each pair of consecutive columns and all '
-        'columns reset.  Each spec: library write -> reference reader, library write -> library read -> '
+        'columns reset; [hist] the WRITTEN object reached through every sequence of length 1..2 (thorough 1..3 in metres) '
+        'over the library\'s own self-maintaining edit operations {rename_layer of each of the 4 layers incl. the atmosphere '
+        'layer, rename_column first/last, atmosphere_type := 0/1/2, convention := 0/2/3 (not from convention 1), '
+        'block_order := None/layer_column/dmplex, translate, rotate, refine of a column, reduce to a half, '
+        'copy_layers_from, refine_layers} on a 3x2 geometry x 4 conventions x 3 atmosphere types x {no, two} '
+        'non-default surfaces x {metres, feet}, written WITHOUT any refresh of the name lists by the harness.  Each spec: library write -> reference reader, library write -> library read -> '
         'compare + rewrite, reference writer (Fortran styles) -> library read.  A case is non-trivial when the '
         'geometry has at least one column and one layer; distinct = distinct spec.')
 ASSUMPTIONS = [
@@ -67,15 +72,24 @@ ASSUMPTIONS = [
     'tilt cosines gdcx/gdcy and the unsupported connection-type flag are not in the statement and are not asserted',
     'header option values are compared to the digits the layout guarantees: atmosphere sizes to three significant '
     'digits, angle and coordinates to two decimals, well coordinates to one',
-    'block and connection name lists of the written geometry are fresh (the harness calls setup_block_name_index / '
-    'setup_block_connection_name_index after its own edits; staleness after edits is property C10)']
+    'block and connection name lists of the written geometry are fresh after the HARNESS\'s own attribute edits (it '
+    'calls setup_block_name_index / setup_block_connection_name_index after them; staleness after edits is property '
+    'C10); in the [hist] group nothing is refreshed after the edit operations of the library, which all rebuild both '
+    'lists themselves (rename_column, rename_layer, the convention / atmosphere_type / block_order setters, refine, '
+    'reduce, copy_layers_from, refine_layers) or change nothing the names depend on (translate, rotate): there the '
+    'object as the library left it is compared with what is read back from its file',
+    'a case whose edits leave a column surface and a layer boundary closer than 0.01 file units without being equal '
+    '(an ulp apart after translate + refine_layers) is outside the elevation assumption above and is excluded']
 BOUNDS = {
     'quick': {'opt': '4 shape/spacing bases x 96 header options x 2 angle/size settings', 'surf': '2x2, 16 subsets x 5 '
               'kinds x 4 conv x 3 atm x 2 units', 'wells': '0..2 wells x 2..6 points', 'shipped': 'g5, g7',
-              'derived': '3x2 only', 'styles': '2 reference-writer styles (+16-style cross on the names group)'},
+              'derived': '3x2 only', 'hist': 'edit sequences of length 1..2 over 22 operations (19 from convention 1) '
+              'x 24 bases x 2 units = 20736', 'styles': '2 reference-writer styles (+16-style cross on the names group)'},
     'thorough': {'opt': '27 shape/spacing bases x 96 header options x 4 angle/size settings', 'surf': '3x2, 64 subsets x '
                  '5 kinds x 4 conv x 3 atm x 2 units', 'wells': '0..3 wells x 2..6 points', 'shipped': 'g1..g7',
-                 'derived': '3x2 and g7 (each of its 108 columns; surface singles, consecutive pairs, all)', 'styles': '4 reference-writer styles (+16-style '
+                 'derived': '3x2 and g7 (each of its 108 columns; surface singles, consecutive pairs, all)',
+                 'hist': 'edit sequences of length 1..3 (metres; 1..2 in feet) over 22 operations (19 from convention '
+                 '1) x 24 bases = 222426', 'styles': '4 reference-writer styles (+16-style '
                  'cross on the names group)'}}
 TECHNIQUE = ('bounded exhaustive enumeration of geometry configurations on the real mulgrid.write / mulgrid.read, '
              'cross-checked in both directions by a reference fixed-column reader/writer frozen from the format '
@@ -351,10 +365,86 @@ def specs_derived(tier):
     return out
 
 
+# edit operations of the library that keep the derived block / connection name lists up to date THEMSELVES (each
+# ends with its own rebuild of both indexes, or does not touch anything the names depend on)
+HIST_OPS = ([['rename_layer', i] for i in range(4)] + [['rename_column', 0], ['rename_column', -1]] +
+            [['atm', t] for t in range(3)] + [['conv', c] for c in (0, 2, 3)] +
+            [['order', o] for o in ('none', 'layer_column', 'dmplex')] +
+            [['translate'], ['rotate'], ['refine', 0], ['reduce'], ['copy_layers', 'lower'], ['refine_layers', 1]])
+_HIST_CACHE = {}
+
+
+def specs_hist(tier):
+    """History of the WRITTEN object: a geometry reached through every sequence (length 1..2, thorough 1..3) of the
+    library's own edit operations - rename_layer of each layer including the atmosphere layer, rename_column,
+    assignment of atmosphere type / convention / block order, translate, rotate, refine, reduce, copy_layers_from,
+    refine_layers - and written WITHOUT any refresh by the harness: the object as the library left it and the
+    geometry read back from its file must agree in everything, the derived name lists included."""
+    if tier in _HIST_CACHE:
+        return _HIST_CACHE[tier]
+    depth = 3 if tier == 'thorough' else 2
+    out = []
+    for conv in range(4):
+        # conventions 0, 2, 3 are interchangeable by assignment (same name lengths); convention 1 is not
+        ops = [o for o in HIST_OPS if o[0] != 'conv' or conv != 1]
+        for atm in range(3):
+            for sf in (None, {'cols': [1, 4], 'kind': 'mixed'}):
+                for unit in ('m', 'ft'):
+                    for n in range(1, (depth if unit == 'm' else 2) + 1):
+                        for seq in itertools.product(ops, repeat=n):
+                            kw = {'history': [list(o) for o in seq]}
+                            if sf:
+                                kw['surface'] = sf
+                            out.append(rect(3, 2, 'mixed', conv, atm, unit, **kw))
+    _HIST_CACHE[tier] = out
+    return out
+
+
+def apply_edit(g, op):
+    """One edit of the geometry through the library's own operation; nothing else is touched."""
+    import mulgrids
+    k = op[0]
+    if k == 'rename_layer':
+        lay = g.layerlist[min(op[1], g.num_layers - 1)]
+        new = next(nm for nm in (('%d' % n).rjust(g.layername_length) for n in range(90, 100)) if nm not in g.layer)
+        if not g.rename_layer(lay.name, new):
+            raise core.HarnessError('rename_layer(%r, %r) refused' % (lay.name, new))
+    elif k == 'rename_column':
+        new, _ = g.new_column_name()
+        if not g.rename_column(g.columnlist[op[1]].name, new):
+            raise core.HarnessError('rename_column(-> %r) refused' % new)
+    elif k == 'atm':
+        g.atmosphere_type = op[1]
+    elif k == 'conv':
+        g.convention = op[1]
+    elif k == 'order':
+        g.block_order = None if op[1] == 'none' else op[1]
+    elif k == 'translate':
+        g.translate([12.34, -56.78, 9.87], wells=True)
+    elif k == 'rotate':
+        g.rotate(30.0)
+    elif k == 'refine':
+        g.refine([g.columnlist[op[1]]])
+    elif k == 'reduce':
+        n = g.num_columns
+        if n >= 2:
+            g.reduce(list(g.columnlist[:n // 2]))
+    elif k == 'copy_layers':
+        top = g.layerlist[0].bottom + {'higher': 45.5, 'lower': -7.25, 'same': 0.0}[op[1]]
+        # (the donor has the receiver's convention: its layer names must have the receiver's name length)
+        other = mulgrids.mulgrid().rectangular([10.], [10.], [30., 12.75, 50.], origin=[0., 0., top],
+                                               convention=g.convention)
+        g.copy_layers_from(other)
+    elif k == 'refine_layers':
+        g.refine_layers([g.layerlist[min(op[1], g.num_layers - 1)]])
+    else:
+        raise core.HarnessError('unknown edit %r' % (op,))
+
+
 GROUPS = [('opt', specs_opt, 48), ('surf', specs_surf, 32), ('wells', specs_wells, 8), ('names', specs_names, 8),
           ('limits', specs_limits, 2), ('layers', specs_layers, 4), ('route', specs_route, 2), ('assign', specs_assign, 4), ('over', specs_over, 2),
           ('reader', lambda tier: specs_reader(tier), 4), ('shipped', specs_shipped, 64),
-          ('derived', specs_derived, 32), ('order', lambda tier: specs_order(tier), 4)]
+          ('derived', specs_derived, 32), ('hist', specs_hist, 256), ('order', lambda tier: specs_order(tier), 4)]
 
 
 def units(tier):
@@ -563,6 +653,9 @@ def build(spec):
             g.identify_neighbours()
     g.setup_block_name_index()
     g.setup_block_connection_name_index()
+    # from here on only the library's own edit operations, and no refresh by the harness after them
+    for op in spec.get('history', ()):
+        apply_edit(g, op)
     return g, None
 
 
@@ -621,6 +714,20 @@ def fits_file(D, scale, strict=False):
             and all(ok(b, 2) and ok(c, 2) for _, b, c in D['layers'])
             and all(ok(e, 2) for _, e in D['surface'])
             and all(ok(v, 1) for _, tr in D['wells'] for p in tr for v in p))
+
+
+def elevations_resolved(D, scale):
+    """The stated assumption on elevations: a column surface and a layer boundary are exactly equal or at least 0.01
+    file units apart (floating-point arithmetic in an edit - translate, then refine_layers - can leave them an ulp
+    apart: a sliver block that two decimals cannot carry, so the derived block list legitimately changes)."""
+    bounds = [b for _, b, _ in D['layers']]
+    for _, e in D['all_surface']:
+        if e is None:
+            continue
+        for b in bounds:
+            if e != b and abs(e - b) < 0.01 * scale * (1 - 1e-9):
+                return False
+    return True
 
 
 # ------------------------------------------------------------------------------------------ oracles
@@ -924,6 +1031,8 @@ def evaluate(spec, tier='thorough'):
         step = spec['base'] if spec['base'] != 'rect' else 'rectangular'
         if spec.get('derive'):
             step += '+' + spec['derive'][0]
+        if spec.get('history'):
+            step += '+edits'
         return [('C03|build(%s)|raises|%s' % (step, type(e).__name__),
                  'building the geometry of the case raised %s: %s' % (type(e).__name__, e))], 'build-raised', stats
     if excluded:
@@ -932,6 +1041,8 @@ def evaluate(spec, tier='thorough'):
     scale = unit_scale(D['header']['unit_type'])
     if not fits_file(D, scale):
         return [], 'excluded:needs-more-than-10-columns', stats
+    if not elevations_resolved(D, scale):
+        return [], 'excluded:elevations-closer-than-0.01-but-not-equal', stats
     ucls = 'feet' if scale != 1.0 else 'metres'
     viol = []
     d = core.scratch()
@@ -940,6 +1051,8 @@ def evaluate(spec, tier='thorough'):
         if os.path.exists(p):
             os.remove(p)
     hist = '[reader read a %s file before]' % spec['reader'] if spec.get('reader') else ''
+    if spec.get('history'):
+        hist = '[after edit operations of the library]'
     if spec.get('route'):
         ucls += ',unit-reached-via-%s' % ('metres' if scale != 1.0 else 'feet')
     # ---- 1. library writes, reference reads
